@@ -51,6 +51,22 @@ def gen(rng, i):
         case = fp.Case(mb, info, recipe=rec, data=data, desc=name + " (last subgraph unsigned)")
         case.unsigned_stats = (full, key, data_full[key])
         return case
+    if i % 8 in (2, 5):
+        # every operator gets its own mode (none / weight only / dynamic range / static range / float16) by a rule on its own scope:
+        # operators are inserted at many positions in every subgraph, in different numbers per subgraph
+        import re
+        mb, info = gm.gen_model(rng, n_ops=rng.randint(3, 7), n_subgraphs=rng.choice([2, 3]), kinds=gm.WEIGHT_HEAVY, alias_sig=0.0)
+        data = gm.random_inputs(mb, rng, n=1)
+        cmds = []
+        for sc in pl.scopes_of(mb):
+            r = rng.random()
+            if r < 0.25 or not sc:
+                continue
+            cfg = rng.choice([pl.UNIFORM["wo8"], pl.UNIFORM["wo4"], pl.UNIFORM["drq8"], pl.UNIFORM["a8w8"], pl.UNIFORM["a16w8"], pl.FP16])
+            cmds.append({"k": "add", "regex": "^" + re.escape(sc) + "$", "operation": "FULLY_CONNECTED" if cfg is pl.FP16 else "*", "cfg": cfg,
+                         "alg": "float_casting" if cfg is pl.FP16 else "min_max_uniform_quantize"})
+        info["tags"].add("per_operator_modes")
+        return fp.Case(mb, info, cmds=cmds, data=data, desc=[(c["regex"], c["alg"], c["cfg"]["cp"]) for c in cmds])
     mb, info = gm.gen_model(rng, n_subgraphs=rng.choice([2, 2, 3]), share=0.25 if i % 3 == 0 else 0.0)
     data = gm.random_inputs(mb, rng, n=1)
     if i % 3 == 0:
@@ -98,7 +114,7 @@ def run(ctx):
                 ctx.fail(f"subgraph {i} is transformed differently inside the multi-subgraph model: {first_diff(a, b)}", case.replay(), "subgraph-differs")
                 return
             ctx.tag("subgraph_compared")
-    fp.explore(ctx, drv, 250 if ctx.tier == "quick" else 2000, per_case, gen=gen, graph_corr=True, pipe_corr=True)
+    fp.explore(ctx, drv, 420 if ctx.tier == "quick" else 2500, per_case, gen=gen, graph_corr=True, pipe_corr=True)
     drv.close()
     return common.finish(ctx)
 
